@@ -501,7 +501,7 @@ var c12RuleInPlace = "R12e"
 func c12InPlace(c *Ctx) {
 	p := c.P
 	ap := p.Func("lib/binpatch.(*PatchSet).Apply")
-	rw := p.Func("lib/binpatch.(*PatchSet).applyRewrite")
+	rw := binpatchRewriteFn(p)
 	if ap == nil || rw == nil {
 		c.Undecided(c12RuleInPlace, "(*PatchSet).Apply/applyRewrite", "-", "function not found")
 		return
@@ -830,4 +830,22 @@ func c12Aligned(c *Ctx) {
 	if m < 1 {
 		c.Undecided("R12i", "FileInfo.Sys() assertions", "-", "none found (1 confirmed by reading: binpatch.hasLinks)")
 	}
+}
+
+// binpatchRewriteFn: the rewrite strategy of lib/binpatch - applyRewrite while that name exists,
+// otherwise the one function of the package that creates its output through atomicfile.New.
+func binpatchRewriteFn(p *Prog) *ssa.Function {
+	if fn := p.Func("lib/binpatch.(*PatchSet).applyRewrite"); fn != nil {
+		return fn
+	}
+	var out *ssa.Function
+	for _, fn := range p.pkgFuncs("lib/binpatch") {
+		if len(p.callsIn(fn, "lib/atomicfile.New")) > 0 {
+			if out != nil {
+				return nil
+			}
+			out = fn
+		}
+	}
+	return out
 }
